@@ -528,16 +528,44 @@ func streamCodec(c *ctx) {
 		}
 		t := buildType(fs)
 		b := randomPayload(0x94)
+		// ... through each of the four entry points in turn
+		entry := []string{"Unmarshal", "UnmarshalAs", "UnmarshalArrayElement", "UnmarshalArray"}[n%4]
 		out := guard(func() string {
-			p := reflect.New(t)
-			if err := codec.Unmarshal(b, p.Interface()); err != nil {
-				return "err"
+			var v reflect.Value
+			switch entry {
+			case "UnmarshalAs":
+				x, err := codec.UnmarshalAs(b, reflect.New(t).Elem().Interface())
+				if err != nil {
+					return "err"
+				}
+				v = reflect.ValueOf(x)
+			case "UnmarshalArrayElement":
+				x, err := codec.UnmarshalArrayElement(b, reflect.New(reflect.SliceOf(t)).Interface())
+				if err != nil {
+					return "err"
+				}
+				v = reflect.ValueOf(x)
+			case "UnmarshalArray":
+				arr := reflect.New(reflect.SliceOf(t))
+				if err := codec.UnmarshalArray([][]byte{b}, arr.Interface()); err != nil || arr.Elem().Len() != 1 {
+					return "err"
+				}
+				v = arr.Elem().Index(0)
+			default:
+				p := reflect.New(t)
+				if err := codec.Unmarshal(b, p.Interface()); err != nil {
+					return "err"
+				}
+				v = p.Elem()
 			}
-			before := showStruct(p.Elem())
+			for v.Kind() == reflect.Ptr || v.Kind() == reflect.Interface {
+				v = v.Elem()
+			}
+			before := showStruct(v)
 			for i := range b {
 				b[i] ^= 0xa5
 			}
-			if showStruct(p.Elem()) == before {
+			if showStruct(v) == before {
 				return "same"
 			}
 			return "changed"
@@ -548,7 +576,7 @@ func streamCodec(c *ctx) {
 		if out == "err" {
 			continue
 		}
-		w.Emit("alias "+layoutTokens(fs)+" | "+cases.Hex(b), out, "alias/"+k, "alias/"+out)
+		w.Emit("alias "+layoutTokens(fs)+" | "+cases.Hex(b), out, "alias/"+k, "alias/"+out, "alias-entry/"+entry)
 	}
 	w.Notes = append(w.Notes, "codec stream: 19 kinds x every offset 2..63 as single-field layouts (marshal, round trip, random bytes); random layouts of 1..12 fields (packed; 1 in 8 deliberately overlapping/overhanging), decimal/hex/upper-case value tags, optional SOM field, one level of embedding; per layout: in-domain and wild values, image, mutated image (field bytes, bad nibbles, header), random payloads, wrong lengths")
 }
